@@ -23,7 +23,11 @@
            text: f64 <-> decimal conversion is Rust's and is trusted; see DESIGN 8).
    Part 5  A model of indexing.rs (get / get_mut / Index / IndexMut) with its laws; beyond the text of C13.
    Part 4  The enumerator: the bounded input space is enumerated AS STATES (Next appends one token
-           of Alphabet); the properties are invariants evaluated on every string.
+           of Alphabet); the properties are invariants evaluated on every string.  With Prune = TRUE a
+           text is extended only while it is viable (accepted, or rejected only because it ended);
+           Inv_DeadStaysDead - checked with Prune = FALSE on complete spaces - is the lemma that no
+           extension of a non-viable text is accepted by the RFC definition or by the model of the code.
+   (JsonMachine.tla is parser.rs once more, as a state machine with one action per loop iteration.)
 
    Dev = {} satisfies every invariant (checked by TLC on the whole bounded space). *)
 EXTENDS Integers, Sequences, TLC
